@@ -6,6 +6,7 @@ import Distill.Driver.Proto
 import Distill.Model.DocFilters
 import Distill.Model.TableClass
 import Distill.Gen.Funcs
+import Distill.Model.Embed
 namespace Distill.Slices
 open Distill Distill.Proto
 
@@ -72,10 +73,57 @@ def tableclass : P String := do
     | some (some g) => pure s!"ok {g.1} {g.2} {spec.1} {spec.2} {napp} {bstr thr}"
     | _ => pure s!"gen-untranslated {spec.1} {spec.2}"
 
+/-- `rootdomain urlEmpty rootEmpty parseErr host root` -/
+def rootdomain : P String := do
+  let ue ← bool; let re ← bool; let pe ← bool; let h ← str; let r ← str
+  let u : RootDomainAtoms := { urlEmpty := ue, rootEmpty := re, parseErr := pe, host := h, root := r }
+  let spec := !ue && !re && !pe && rootMatchSpec h r
+  match Gen.hasRootDomain u with
+  | some b => pure s!"ok {bstr b} {bstr spec}"
+  | none => pure s!"gen-untranslated {bstr spec}"
+
+structure UrlParts where
+  urlEmpty : Bool
+  parseErr : Bool
+  host : String
+  segs : List String
+
+def urlParts : P UrlParts := do
+  let ue ← bool; let pe ← bool; let h ← str
+  let n ← nat
+  let segs ← many n str
+  pure { urlEmpty := ue, parseErr := pe, host := h, segs := segs }
+
+def rootFn (p : UrlParts) : String → Bool := fun d =>
+  match Gen.hasRootDomain { urlEmpty := p.urlEmpty, rootEmpty := d == "", parseErr := p.parseErr, host := p.host, root := d } with
+  | some b => b
+  | none => false
+
+def optStr (o : Option (String × String)) : String :=
+  match o with
+  | some (t, i) => s!"{hex t}:{hex i}"
+  | none => "-"
+
+/-- `embed tag yt vm twsrc tweetIdAttr classTT nAnchors twanchor` (each url = urlParts) -/
+def embedSlice : P String := do
+  let tag ← str
+  let yt ← urlParts; let vm ← urlParts; let ts ← urlParts
+  let tid ← str; let ctt ← bool; let na ← int
+  let ta ← urlParts
+  let idFor := fun (p : UrlParts) (skip : Option String) => if p.parseErr then "" else idOf skip p.segs
+  let a : EmbedAtoms := {
+    tag := tag, ytRoot := rootFn yt, ytId := idFor yt (some "embed"),
+    vmRoot := rootFn vm, vmId := idFor vm (some "video"),
+    twSrcRoot := rootFn ts, tweetIdAttr := tid, classTwitterTweet := ctt, nAnchors := na,
+    twAnchorRoot := rootFn ta, tweetIdFromUrl := idFor ta none }
+  pure s!"tw={optStr (twitterExtract a)} vm={optStr (unwrapGen (Gen.vimeoExtract a))} yt={optStr (unwrapGen (Gen.youtubeExtract a))} dec={optStr (embedDecision a)}"
+
 def dispatch (slice : String) : Option (P String) :=
   match slice with
   | "docfilters" => some docfilters
   | "tableclass" => some tableclass
+  | "rootdomain" => some rootdomain
+  | "embed" => some embedSlice
   | _ => none
 
 def answer (line : String) : String :=
